@@ -30,6 +30,50 @@ ASSUMPTIONS = ['every CFG path is assumed feasible']
 FIN = W + 'finish_with_mac'
 
 
+def reservation_rules(R, F):
+    """(c) space reserved by set_edns / set_tsig is exactly what finish_with_mac gives back, and matches the serialiser."""
+    fin = F.fn(FIN)
+    addrr = calls_in(fin, W + 'add_rr')
+    opt = [b for b, t in addrr if 'Type(41_u16)' in ' '.join(op_str(a) for a in t['args'])]
+    tsig = [b for b, t in addrr if 'Type(250_u16)' in ' '.join(op_str(a) for a in t['args'])]
+    se = F.fn(W + 'set_edns')
+    def avail_delta(fn):
+        out = []
+        for b, bl in enumerate(fn.blocks):
+            if bl['cleanup']:
+                continue
+            for st in bl['stmts']:
+                if st['k'] == 'assign' and st['lhs']['p'] and st['lhs']['p'][-1].get('n') == 'available' and st['rv']['k'] == 'use':
+                    out.append((b, paths.show_operand(fn, st['rv']['op'])))
+        return out
+    d = avail_delta(se)
+    ok = len(d) == 1 and d[0][1] == 'Sub(arg1.available,11_usize)' and any(re.match(r'^Gt\(Add\(arg1\.cursor,11_usize\),arg1\.available\) in \[0\]$', x) for x in paths.dom_guards(se, d[0][0]))
+    R.require(ok, 'reservation', W + 'set_edns|reserve-11', se.where(), 'available -= 11 under cursor + 11 <= available', 'set_edns reserves %s' % d)
+    st_ = F.fn(W + 'set_tsig')
+    d = avail_delta(st_)
+    ok = len(d) == 1 and d[0][1] == 'Sub(arg1.available,var:usize)' and any(re.match(r'^Gt\(Add\(arg1\.cursor,var:usize\),arg1\.available\) in \[0\]$', x) for x in paths.dom_guards(st_, d[0][0]))
+    lens = sorted(paths.short(callee_name(t)) for b, t in st_.calls() if 'PreparedTsigRr::' in callee_name(t))
+    aggs = [st for bl in st_.blocks for st in bl['stmts'] if st['k'] == 'assign' and st['rv']['k'] == 'agg' and st['rv']['def'] == 'message::writer::Tsig']
+    same = bool(aggs) and paths.show_operand(st_, dict(zip(aggs[0]['rv']['fields'], aggs[0]['rv']['ops']))['reserved_len']) == 'var:usize'
+    R.require(ok and lens == ['PreparedTsigRr::signed_len', 'PreparedTsigRr::unsigned_len'] and same, 'reservation', W + 'set_tsig|reserve-len', st_.where(), 'available -= reserved_len (signed_len / unsigned_len by mode) under the space test; the amount is remembered', 'set_tsig reserves %s using %s' % (d, lens))
+    d = avail_delta(fin)
+    vals = sorted(v for b, v in d)
+    ok = vals == ['Add(arg1.available,11_usize)', 'Add(arg1.available,Option::take(arg1.tsig)@Some.0.reserved_len)'] or (len(vals) == 2 and vals[0] == 'Add(arg1.available,11_usize)' and vals[1].startswith('Add(arg1.available,') and vals[1].endswith('.reserved_len)'))
+    R.require(ok, 'reservation', FIN + '|returns-reservations', fin.where(), 'finish gives back exactly 11 and reserved_len', 'finish_with_mac adjusts available by %s' % vals)
+    if ok and opt and tsig:
+        bo = [b for b, v in d if v.endswith('11_usize)')][0]
+        bt = [b for b, v in d if v.endswith('reserved_len)')][0]
+        R.require(fin.dominates(bo, opt[0]) and fin.dominates(bt, tsig[0]), 'reservation', FIN + '|returned-before-append', fin.where(), 'space is given back before the corresponding append', 'a reservation is not released before its record is appended')
+    ul = F.fn('message::tsig::PreparedTsigRr::unsigned_len')
+    consts = sorted(const_int(st['rv']['b']) for bl in ul.blocks for st in bl['stmts'] if st['k'] == 'assign' and st['rv']['k'] == 'bin' and st['rv']['op'].startswith('Add') and st['rv']['b']['k'] == 'const')
+    R.require(consts == [6, 26], 'reservation', 'message::tsig::PreparedTsigRr::unsigned_len|fixed-octets', ul.where(), 'fixed part 26 = 10 (RR) + 16 (RDATA fields), +6 for BADTIME', 'unsigned_len adds constants %s, expected [6, 26]' % consts)
+    sgl = F.fn('message::tsig::PreparedTsigRr::signed_len')
+    txt = [paths.show_operand(sgl, st['rv']['op']) for bl in sgl.blocks for st in bl['stmts'] if st['k'] == 'assign' and not st['lhs']['p'] and st['lhs']['l'] == 0 and st['rv']['k'] == 'use']
+    R.require(txt == ['Add(PreparedTsigRr::unsigned_len(arg1,LowercaseName::deref(Algorithm::name(arg2))),Algorithm::output_size(arg2))'] or (len(txt) == 1 and 'unsigned_len' in txt[0] and 'output_size' in txt[0] and txt[0].startswith('Add(')), 'reservation', 'message::tsig::PreparedTsigRr::signed_len', sgl.where(), 'signed_len = unsigned_len + output size', 'signed_len is %s' % txt)
+    R.floor('reservation', 6)
+
+
+
 def check(R, F):
     # ---- (a) counter writers
     wr = effects.writers_of(F, wc.WRITER_TY, kinds=('assign', 'calldest'))
@@ -98,41 +142,7 @@ def check(R, F):
     R.floor('placement', 5)
 
     # ---- (c) reservations
-    se = F.fn(W + 'set_edns')
-    def avail_delta(fn):
-        out = []
-        for b, bl in enumerate(fn.blocks):
-            if bl['cleanup']:
-                continue
-            for st in bl['stmts']:
-                if st['k'] == 'assign' and st['lhs']['p'] and st['lhs']['p'][-1].get('n') == 'available' and st['rv']['k'] == 'use':
-                    out.append((b, paths.show_operand(fn, st['rv']['op'])))
-        return out
-    d = avail_delta(se)
-    ok = len(d) == 1 and d[0][1] == 'Sub(arg1.available,11_usize)' and any(re.match(r'^Gt\(Add\(arg1\.cursor,11_usize\),arg1\.available\) in \[0\]$', x) for x in paths.dom_guards(se, d[0][0]))
-    R.require(ok, 'reservation', W + 'set_edns|reserve-11', se.where(), 'available -= 11 under cursor + 11 <= available', 'set_edns reserves %s' % d)
-    st_ = F.fn(W + 'set_tsig')
-    d = avail_delta(st_)
-    ok = len(d) == 1 and d[0][1] == 'Sub(arg1.available,var:usize)' and any(re.match(r'^Gt\(Add\(arg1\.cursor,var:usize\),arg1\.available\) in \[0\]$', x) for x in paths.dom_guards(st_, d[0][0]))
-    lens = sorted(paths.short(callee_name(t)) for b, t in st_.calls() if 'PreparedTsigRr::' in callee_name(t))
-    aggs = [st for bl in st_.blocks for st in bl['stmts'] if st['k'] == 'assign' and st['rv']['k'] == 'agg' and st['rv']['def'] == 'message::writer::Tsig']
-    same = bool(aggs) and paths.show_operand(st_, dict(zip(aggs[0]['rv']['fields'], aggs[0]['rv']['ops']))['reserved_len']) == 'var:usize'
-    R.require(ok and lens == ['PreparedTsigRr::signed_len', 'PreparedTsigRr::unsigned_len'] and same, 'reservation', W + 'set_tsig|reserve-len', st_.where(), 'available -= reserved_len (signed_len / unsigned_len by mode) under the space test; the amount is remembered', 'set_tsig reserves %s using %s' % (d, lens))
-    d = avail_delta(fin)
-    vals = sorted(v for b, v in d)
-    ok = vals == ['Add(arg1.available,11_usize)', 'Add(arg1.available,Option::take(arg1.tsig)@Some.0.reserved_len)'] or (len(vals) == 2 and vals[0] == 'Add(arg1.available,11_usize)' and vals[1].startswith('Add(arg1.available,') and vals[1].endswith('.reserved_len)'))
-    R.require(ok, 'reservation', FIN + '|returns-reservations', fin.where(), 'finish gives back exactly 11 and reserved_len', 'finish_with_mac adjusts available by %s' % vals)
-    if ok and opt and tsig:
-        bo = [b for b, v in d if v.endswith('11_usize)')][0]
-        bt = [b for b, v in d if v.endswith('reserved_len)')][0]
-        R.require(fin.dominates(bo, opt[0]) and fin.dominates(bt, tsig[0]), 'reservation', FIN + '|returned-before-append', fin.where(), 'space is given back before the corresponding append', 'a reservation is not released before its record is appended')
-    ul = F.fn('message::tsig::PreparedTsigRr::unsigned_len')
-    consts = sorted(const_int(st['rv']['b']) for bl in ul.blocks for st in bl['stmts'] if st['k'] == 'assign' and st['rv']['k'] == 'bin' and st['rv']['op'].startswith('Add') and st['rv']['b']['k'] == 'const')
-    R.require(consts == [6, 26], 'reservation', 'message::tsig::PreparedTsigRr::unsigned_len|fixed-octets', ul.where(), 'fixed part 26 = 10 (RR) + 16 (RDATA fields), +6 for BADTIME', 'unsigned_len adds constants %s, expected [6, 26]' % consts)
-    sgl = F.fn('message::tsig::PreparedTsigRr::signed_len')
-    txt = [paths.show_operand(sgl, st['rv']['op']) for bl in sgl.blocks for st in bl['stmts'] if st['k'] == 'assign' and not st['lhs']['p'] and st['lhs']['l'] == 0 and st['rv']['k'] == 'use']
-    R.require(txt == ['Add(PreparedTsigRr::unsigned_len(arg1,LowercaseName::deref(Algorithm::name(arg2))),Algorithm::output_size(arg2))'] or (len(txt) == 1 and 'unsigned_len' in txt[0] and 'output_size' in txt[0] and txt[0].startswith('Add(')), 'reservation', 'message::tsig::PreparedTsigRr::signed_len', sgl.where(), 'signed_len = unsigned_len + output size', 'signed_len is %s' % txt)
-    R.floor('reservation', 6)
+    reservation_rules(R, F)
 
     # ---- (d)
     wc.check_rollback_completeness(R, F, 'rollback')
